@@ -77,6 +77,8 @@ class BigTtlTriplesYielder(BaseTriplesYielder):
                                allow_untyped_numbers=self._allow_untyped_numbers,
                                raise_error_if_no_corners=False)
                 )
+        if self._state != _WAITING_FOR_SUBJ:
+            raise ValueError("Malformed file. The last statement is not closed with '.'")
 
     def _clean_line(self, str_line):
         result = _OTHER_BLANKS.sub(" ", str_line)
